@@ -229,7 +229,8 @@ def committed_source(expr, fr, F):
                 'loadBlob', 'getBlobFilename', 'committed')))
 
 
-@rule('C13.R4', 'committed blob files are only ever opened for reading',
+@rule('C13.R4', 'committed blob files are only ever opened for reading, and '
+      'the in-memory blob never moves or removes them', props=['C12'],
       min_instances=5)
 def r4(R):
     n = 0
@@ -305,6 +306,42 @@ def r4(R):
             for v in vs:
                 R.violation(v.node, v.message, g, v.path)
     R.require(n >= 5, 'only %d opens of committed blob files found' % n)
+    # ... and the in-memory Blob never moves or removes the file its
+    # committed (or savepoint) data lives in: the storage -- or the savepoint
+    # store, whose records a rollback returns to -- owns that file
+    blob = R.prog.cls('ZODB.blob.Blob')
+    MOVERS = {('@os', 'replace'), ('@os', 'rename'), ('@os', 'remove'),
+              ('@os', 'unlink'), ('@shutil', 'move'),
+              ('@ZODB.blob.remove_committed',),
+              ('@ZODB.blob.rename_or_copy_blob',)}
+    nm = 0
+    for name, f in sorted(blob.methods.items()):
+        g, b, F = R.cfg(f, blob, max_depth=0)
+        # locals flow-insensitively bound to the committed file name
+        for nid in sorted(g.reachable()):
+            node = g.nodes[nid]
+            for op in F.ops(node):
+                if op.kind != 'call' or op.path is None:
+                    continue
+                if tuple(op.path) not in MOVERS and not (
+                        op.path[-1] in ('remove_committed',
+                                        'rename_or_copy_blob')):
+                    continue
+                nm += 1
+                a = op.ast.args[0] if op.ast.args else None
+                if a is None:
+                    continue
+                pv = provenance(a, node.frame, F)
+                if ('attr', '_p_blob_committed') in pv or (
+                        'path', ('self', '_p_blob_committed')) in pv:
+                    R.violation(
+                        node, 'Blob.%s moves or removes the file named by '
+                        '_p_blob_committed (`%s`): that file belongs to the '
+                        'storage, or to a savepoint record a rollback '
+                        'returns to -- after a rollback the blob shows the '
+                        'previously committed bytes (or POSKeyError), and '
+                        'the commit stores them' % (name, ast.unparse(a)))
+    R.instance('Blob: %d move/remove call(s) looked at' % nm)
 
 
 @rule('C13.R5', 'after a pack only the blob files the packer listed are '
@@ -491,7 +528,7 @@ def r7(R):
 
 @rule('C13.R8', 'the packer tags a blob revision for removal only after '
       'comparing it with the revision it keeps (two records of one '
-      'transaction share the blob file)', props=['C07'], min_instances=1)
+      'transaction share the blob file)', props=['C07', 'C08'], min_instances=1)
 def r8(R):
     cls = R.prog.cls(PACKER)
     f = R.method(cls, 'copyDataRecords')
@@ -852,3 +889,60 @@ def r13(R):
             R.violation(v.node, v.message, g, v.path,
                         key='file removed without asking for its revision')
     R.require(n >= 2, 'sweeps not found')
+
+
+# ----------------------------------------------------------------- C13.R14
+@rule('C13.R14', 'two blob files are reported to hold the same bytes only '
+      'after every chunk read from one has been compared equal with the '
+      'corresponding chunk of the other', props=['C06', 'C03'],
+      min_instances=1)
+def r14(R):
+    cls = R.prog.cls(FS)
+    f = R.method(cls, '_blob_same_bytes')
+    g, b, F = R.cfg(f, cls, max_depth=0)
+    R.instance('FileStorage._blob_same_bytes')
+
+    def is_read(e):
+        return isinstance(e, ast.Call) and isinstance(
+            e.func, ast.Attribute) and e.func.attr == 'read'
+
+    def edge(node, st, lab, tgt):
+        if node.kind == 'test' and lab in ('T', 'F'):
+            for e, truth in implied_atoms(node.ast, lab):
+                if isinstance(e, ast.Compare) and len(e.ops) == 1 and \
+                        isinstance(e.ops[0], (ast.Eq, ast.NotEq)):
+                    sides = [e.left, e.comparators[0]]
+                    names = {s_.id for s_ in sides
+                             if isinstance(s_, ast.Name)}
+                    reads = [s_ for s_ in sides if is_read(s_)]
+                    if (names & st) and (len(names & st) == 2 or reads):
+                        if isinstance(e.ops[0], ast.Eq) == truth:
+                            return frozenset()     # this chunk is equal
+                        return st
+        if lab in ('e', 'eb'):
+            return st
+        for op in F.ops(node):
+            if op.kind == 'store' and op.path and op.path[0] == '%local':
+                v = store_value(op)
+                if v is not None and is_read(v):
+                    st = st | {op.path[1]}
+                else:
+                    st = st - {op.path[1]}
+        return st
+
+    def at(node, st):
+        if node.kind == 'return' and st and isinstance(
+                node.ast.value, ast.Constant) and node.ast.value.value is True:
+            return Violation(
+                '_blob_same_bytes answers "same bytes" with the chunk in '
+                '`%s` not compared with the other file: when the first file '
+                'ends (empty, or a multiple of the chunk size long) a longer '
+                'second file that merely starts with its bytes counts as '
+                'equal, and undo accepts to discard what a later '
+                'transaction appended' % ', '.join(sorted(st)))
+        return st
+
+    vs, stats = explore(g, frozenset(), at=at, edge=edge)
+    R.count(stats)
+    for v in vs:
+        R.violation(v.node, v.message, g, v.path)
